@@ -321,6 +321,45 @@ def run_revival(servers, prefix, pooling, first_op, how):
     return P
 
 
+def run_eviction(servers, prefix, pooling, ra, ignore_exc):
+    """A server goes down and stays down; multi-key writes with (server_key, key) pairs are the calls that
+    retry it and finally evict it.  Whatever stage the failover is in, a command only ever reaches a server
+    that the rule assigns the entry's routing key to - under the full rotation or under the rotation
+    without the victim - never one chosen by the inner key."""
+    w = World(servers, prefix, pooling)
+    w.hc.retry_attempts, w.hc.retry_timeout, w.hc.dead_timeout, w.hc.ignore_exc = ra, 1, 60, ignore_exc
+    P = []
+    names = w.names
+    victim = servers[-1]
+    vname = name_of(victim)
+    rest = [n for n in names if n != vname]
+    pairs = []
+    i = 0
+    while len(pairs) < 4 and i < 400:  # pairs pinned to the victim whose inner key would live elsewhere than their server key
+        sk, ik = f"vk{i}", f"in{i}"
+        i += 1
+        if rendezvous(names, sk) == vname and rendezvous(rest, sk) != rendezvous(rest, ik):
+            pairs.append((sk, ik))
+    plain = next(f"pl{j}" for j in range(99) if rendezvous(names, f"pl{j}") != vname)
+    ks = pairs + [plain]
+    allowed = {}
+    for k in ks:
+        for rot in (names, rest):
+            allowed.setdefault(rendezvous(rot, route_key(k)), set()).add(wire(k, prefix))
+    w.net.failing[addr_of(victim)] = "refused"
+    steps = [("get", (pairs[0],), {})] + [("set_many", ({k: value_of(k) for k in ks},), {"noreply": False})] * (ra + 3) + \
+            [("get_many", (ks,), {}), ("delete_many", (ks,), {"noreply": False})]
+    for n, (name, args, kw) in enumerate(steps):
+        w.call(name, *args, **kw)
+        for srv, got in w.seen().items():
+            stray = [k for k in got if k not in allowed.get(srv, ())]
+            if stray:
+                P.append((f"eviction-key-at-wrong-server|{name}", f"one server down for good (retry_attempts={ra}, ignore_exc={ignore_exc}), "
+                          f"call {n + 1} {name}: {srv} received {stray}; the rule (by server key, with or without {vname}) allows it {sorted(allowed.get(srv, ()))}"))
+        w.net.clock.advance(2)
+    return P
+
+
 def big_sets():
     out = []
     for n in (10, 25, 50):
@@ -366,6 +405,17 @@ def _worker(job, chk):
                                   f"HashClient({[name_of(s) for s in servers]}, key_prefix={prefix!r}, use_pooling={pooling}): {text}",
                                   {"servers": si, "prefix": prefix.decode(), "pooling": pooling, "keys": [], "alias": None,
                                    "revival": [first_op, how]})
+    if len(servers) >= 3:
+        for ra in (0, 1, 2):
+            for ie in (False, True):
+                P = run_eviction(servers, prefix, pooling, ra, ie)
+                chk.add()
+                chk.outcome((si, prefix, pooling, "eviction", ra, ie))
+                for sig, text in P:
+                    chk.violation(f"{sig}|pooling={pooling}",
+                                  f"HashClient({[name_of(s) for s in servers]}, key_prefix={prefix!r}, use_pooling={pooling}): {text}",
+                                  {"servers": si, "prefix": prefix.decode(), "pooling": pooling, "keys": [], "alias": None,
+                                   "eviction": [ra, ie]})
     if si == 2 and not pooling and prefix:
         chk.sample({"servers": [name_of(s) for s in servers], "prefix": prefix.decode(), "keys": [repr(k) for k in UNIVERSE[:5]],
                     "expected_placement": {repr(k): rendezvous([name_of(s) for s in servers], route_key(k)) for k in UNIVERSE[:5]}})
@@ -382,6 +432,9 @@ def run(chk):
 def replay(detail):
     servers = SERVER_SETS[detail["servers"]]
     prefix = detail["prefix"].encode()
+    if detail.get("eviction"):
+        P = run_eviction(servers, detail["prefix"].encode(), detail["pooling"], *detail["eviction"])
+        return [t for _, t in P]
     if detail.get("revival"):
         P = run_revival(servers, prefix, detail["pooling"], *detail["revival"])
     elif detail["alias"] is not None:
